@@ -110,6 +110,9 @@ def run(ctx):
     rule_tpi(ctx)
     rule_shift_direction(ctx)
     rule_t3w_side_base(ctx)
+    rule_tap_types(ctx)
+    from rules.C03 import rule_shortcut_guard
+    rule_shortcut_guard(ctx)
     from rules import _lints
     _lints.dup_sweep(ctx, "DUP-OPERAND", ["pandapower.pypower.makeYbus", "pandapower.pf.makeYbus_numba", "pandapower.build_branch",
                                          "pandapower.results_branch", "pandapower.pypower.makeBdc"], minimum=10)
@@ -149,6 +152,33 @@ def rule_t3w_side_base(ctx):
     ctx.ob(R, "pandapower.build_branch::z_br_to_bus_vector::hv-base", t.startswith("sn[0,:]*np.array("), "result related to the hv rating sn[0]", fi.loc())
 
 
+def rule_tap_types(ctx):
+    """every tap changer type of the schema domain is handled by the ratio / angle computation"""
+    import ast
+    from ppsa import facts
+    R = "TAP-TYPES"
+    ctx.rule(R, "every value of the schema domain of trafo.tap_changer_type ('Ratio', 'Symmetrical', 'Ideal'; 'Tabular' is handled through "
+                "tap_dependency_table) is compared with tap_changer_type in _calc_tap_from_dataframe: a type that no mask matches is "
+                "calculated at the neutral ratio and angle")
+    schema = facts.schema_of(ctx.repo)
+    dom = schema.columns["trafo"]["tap_changer_type"].isin or []
+    if len(dom) < 3:
+        ctx.fail(f"schema domain of trafo.tap_changer_type not readable ({dom})")
+    fi = ctx.repo.func("pandapower.build_branch:_calc_tap_from_dataframe")
+    seen = set()
+    for c in ast.walk(fi.node):
+        if isinstance(c, ast.Compare) and isinstance(c.left, ast.Name) and c.left.id == "tap_changer_type":
+            for k in c.comparators:
+                if isinstance(k, ast.Constant) and isinstance(k.value, str):
+                    seen.add(k.value)
+    for t in dom:
+        if t == "Tabular":
+            continue
+        ctx.ob(R, f"pandapower.build_branch::_calc_tap_from_dataframe::{t}", t in seen,
+               f"tap changer type {t!r} is matched by a mask" if t in seen else
+               f"tap changer type {t!r} of the schema domain is matched by no mask: such transformers keep the neutral ratio and angle", fi.loc())
+
+
 def variants(repo):
     bb = "pandapower/build_branch.py"
     rb = "pandapower/results_branch.py"
@@ -161,6 +191,8 @@ def variants(repo):
         V("trafo3w side base assumes hv is the largest winding", bb, replace_once("z[0, :] / sn[[0, 1], :].min(axis=0)", "z[0, :] / sn[1, :]"), "T3W-SIDE-BASE"),
         V("trafo3w lv-hv pair uses mv", bb, replace_once("z[2, :] / sn[[0, 2], :].min(axis=0)", "z[2, :] / sn[[1, 2], :].min(axis=0)"), "T3W-SIDE-BASE"),
         V("twin: side base with np.minimum", bb, replace_once("z[1, :] /\n                                sn[[1, 2], :].min(axis=0)", "z[1, :] /\n                                np.minimum(sn[1, :], sn[2, :])"), None),
+        V("symmetrical tap changers not regulated", bb, replace_once('tap_complex = np.logical_and(np.logical_or(tap_changer_type == "Ratio",\n                                                           tap_changer_type == "Symmetrical"), tap_no_table)', 'tap_complex = np.logical_and(tap_changer_type == "Ratio", tap_no_table)'), "TAP-TYPES"),
+        V("fast slack result path with conductance shunts", "pandapower/pf/run_newton_raphson_pf.py", replace_once('shunt_in_net = any(ppci["bus"][:, BS]) or any(ppci["bus"][:, GS])', 'shunt_in_net = any(ppci["bus"][:, BS])'), "SHORTCUT-GUARD"),
         V("magnetising branch ignores the lv tap ratio", bb, in_function("_calc_y_from_dataframe", lambda s: s.replace(" / np.square(vn_trafo_lv / vn_lv_kv)", "")), "y-from-df"),
         V("ideal phase shifter percent form without direction", bb, in_function("_calc_tap_from_dataframe", replace_once("(direction * 2 * np.rad2deg(np.arcsin(tap_diff[mask_ideal] *", "(2 * np.rad2deg(np.arcsin(tap_diff[mask_ideal] *")), "SHIFT-DIRECTION"),
         V("wye delta only for rows with susceptance", bb, in_function("_wye_delta", replace_once("tidx = (g != 0) | (b != 0)", "tidx = b != 0")), "converted-rows"),
